@@ -66,6 +66,28 @@ class FnSpec:
         return self
 
 
+def _respace(src, it):
+    """text of the Self type of an impl item (tokens after the top-level `for`, before `where`/`{`)"""
+    toks = src.toks
+    k, depth, start = it.start + 1, 0, None
+    while k < it.hdr_end:
+        t = toks[k].text
+        if t == "<":
+            depth += 1
+        elif t == ">":
+            depth -= 1
+        elif depth == 0 and t == "for":
+            start = k + 1
+        elif depth == 0 and t == "where":
+            break
+        k += 1
+    if start is None:      # inherent impl
+        start = it.start + 1
+        if toks[start].text == "<":
+            start = find_angle_close(src, start) + 1
+    return src.text[toks[start].start:toks[k - 1].end]
+
+
 def strip(impl):
     return norm(impl) if impl else ""
 
@@ -76,6 +98,7 @@ class ImplSpec:
         self.header = header      # replacement header text (mechanical rule applies if None)
         self.fns = []
         self.keep_assoc = keep_assoc
+        self.only_hoisted = False
 
     def fn(self, name, nth=None):
         f = FnSpec(self.unit, self.file, name, impl=self.impl, nth=nth)
@@ -244,14 +267,50 @@ class Unit:
                     out += rw.render()
                     out.append(Chunk("\n", ("gen", "sep")))
                     self.rewrite_log += rw.log
-        for f in b.fns:
+        pre = []
+        for n, f in enumerate(b.fns):
             out.append(Chunk("    ", ("gen", "sep")))
-            out += self.emit_fn(f, canary)
+            if f.opts.get("hoist"):
+                # R15: closures inside trait-impl methods lose their specifications in this Verus build;
+                # the body is hoisted verbatim into a free function and the method delegates to it
+                import copy as _copy
+                from .extract import strip_impl_generics, _subst_text
+                hdr = strip_impl_generics(it.header)
+                self_ty = _subst_text(src, _respace(src, it), self.cfg)
+                import zlib as _z
+                name = f"vx_h_{f.name}_{_z.crc32(f.key.encode()) % 100000}"
+                rs = lambda t: re.sub(r"\bself\b", "self_", t)
+                g = _copy.copy(f)
+                g.requires = [rs(c) for c in f.opts.get("hoist_req", [])]
+                g.ensures = [rs(c) for c in f.ensures]
+                g.loops = {k: dict(v, invariant=[rs(c) for c in v["invariant"]], ensures=[rs(c) for c in v["ensures"]],
+                                   invariant_except_break=[rs(c) for c in v["invariant_except_break"]],
+                                   decreases=rs(v["decreases"]) if v["decreases"] else None) for k, v in f.loops.items()}
+                g.hints = [(a_, rs(t_)) for a_, t_ in f.hints]
+                g.opts = dict(f.opts)
+                if f.opts.get("hoist") == "assumed-here":
+                    # proved in a sibling unit (same contract text); here only the contract is visible
+                    g.attrs = list(g.attrs) + ["#[verifier::external_body] // contract proved in unit " + str(f.opts.get("proved_in"))]
+                pre += self.emit_fn(g, canary, mode="free", self_type=self_ty, hoist_name=name)
+                pre.append(Chunk("\n\n", ("gen", "sep")))
+                f.n_loops, f.n_closures = g.n_loops, g.n_closures
+                d = _copy.copy(f)
+                d.loops, d.hints, d.closures, d.opts = {}, [], {}, {}
+                if not b.only_hoisted:
+                    out += self.emit_fn(d, canary, mode="delegate", hoist_name=name)
+                    f.src_line = d.src_line
+                else:
+                    f.src_line = g.src_line
+            else:
+                out += self.emit_fn(f, canary)
             out.append(Chunk("\n\n", ("gen", "sep")))
         out.append(Chunk("}", ("gen", "sep")))
-        return out
+        if b.only_hoisted:
+            return pre
+        return pre + out
 
-    def emit_fn(self, f, canary):
+    def emit_fn(self, f, canary, mode="normal", self_type=None, hoist_name=None):
+        """mode: normal | free (trait-impl body hoisted into a free fn, R15) | delegate (trait-impl fn calling the hoisted fn)"""
         src = self.src(f.file)
         it = src.find("fn", f.name, impl=f.impl, nth=f.nth)
         f.src_line = src.toks[it.start].line
@@ -271,6 +330,17 @@ class Unit:
             skip.append(p.where)
         if f.rename:
             rw.replace(p.name_tok, p.name_tok + 1, f.rename, "R4-rename")
+        if mode == "free":
+            rw.replace(p.name_tok, p.name_tok + 1, hoist_name, "R15-hoist-trait-fn")
+        if mode == "delegate":
+            # the body becomes a call of the hoisted free function with the same arguments
+            args = []
+            for (x, y) in split_top(src, p.params[0] + 1, p.params[1]):
+                q = x
+                while toks[q].text in ("&", "mut") or toks[q].kind == "life":
+                    q += 1
+                args.append(toks[q].text)
+            rw.replace(body_open + 1, body_close, f" {hoist_name}({', '.join(args)}) ", "R15-hoist-trait-fn", swallow=True)
         # parameters
         a, b = p.params
         self_renamed = False
@@ -281,6 +351,17 @@ class Unit:
                 rw.replace(x, close + 1, f"arg{n}_", "R4-tuple-param")
                 skip.append((x, close + 1))
                 pre_body.append(f"let {pat} = arg{n}_;")
+            elif mode == "free" and any(toks[q].text == "self" for q in range(x, y)):
+                form = "".join(toks[q].text + " " for q in range(x, y)).strip()
+                ty = {"self": self_type, "mut self": self_type, "& self": "&" + self_type.lstrip("&") if not self_type.startswith("&") else "&" + self_type,
+                      "& mut self": "&mut " + self_type}[form]
+                if form == "mut self":
+                    rw.replace(x, y, f"self_0: {ty}", "R15-hoist-trait-fn")
+                    pre_body.append("let mut self_ = self_0;")
+                else:
+                    rw.replace(x, y, f"self_: {ty}", "R15-hoist-trait-fn")
+                skip.append((x, y))
+                self_renamed = True
             elif toks[x].text == "mut" and toks[x + 1].text == "self":
                 rw.replace(x, x + 2, "self", "R4-mut-self")
                 skip.append((x, x + 2))
@@ -293,6 +374,7 @@ class Unit:
                 rw.replace(x + 1, x + 2, nm + "_0", "R4-mut-param")
                 skip.append((x + 1, x + 2))
                 pre_body.append(f"let mut {nm} = {nm}_0;")
+        f.opts["_self_renamed"] = self_renamed
         if self_renamed:
             for k in range(body_open + 1, body_close):
                 if toks[k].kind == "ident" and toks[k].text == "self":
@@ -302,30 +384,8 @@ class Unit:
         if p.ret:
             rw.insert(p.ret[0] + 1, f"({f.ret}: ", "R4-named-return")
             rw.insert_after(p.ret[1] - 1, ")", "R4-named-return")
-        # loops
         loops = find_loops(src, body_open + 1, body_close)
         f.n_loops = len(loops)
-        for n, spec in f.loops.items():
-            if n > len(loops):
-                raise Undecided(f"anchor lost: {f.key} has {len(loops)} loops, contract names loop {n}")
-        for n, lp in enumerate(loops, 1):
-            spec = f.loops.get(n)
-            if lp["kind"] == "for" and spec and spec["iter"]:
-                rw.insert(lp["in"] + 1, f"{spec['iter']}: ", "R5-for-iter-name")
-            if spec:
-                ch = []
-                for kind in ("invariant_except_break", "invariant", "ensures"):
-                    if spec[kind]:
-                        ch.append(Chunk(f"\n        {kind}\n", ("gen", "kw")))
-                        for i, c in enumerate(spec[kind], 1):
-                            ch.append(Chunk(f"            {c},\n", ("clause", f.key, f"loop#{n}/{kind}", i)))
-                if spec["decreases"]:
-                    ch.append(Chunk("        decreases\n", ("gen", "kw")))
-                    ch.append(Chunk(f"            {spec['decreases']},\n", ("clause", f.key, f"loop#{n}/decreases", 1)))
-                for c in ch:
-                    rw.insert(lp["body_open"], c.text, "contract", c.origin)
-            if canary:
-                rw.insert_after(lp["body_open"], " " + self.next_canary() + " ", "canary", ("canary", f.key, f"loop#{n}"))
         # closures
         cls = find_closures(src, body_open + 1, body_close)
         f.n_closures = len(cls)
@@ -349,6 +409,28 @@ class Unit:
         apply_type_subst(rw, src, it.start, it.end, self.cfg, skip=skip)
         rules.apply_extra(rw, src, it.start, it.end, self.cfg, skip)
         rules.apply_body_rules(rw, src, f, body_open, body_close, loops, self.cfg)
+        # loop contracts (after the body rules so that they follow rule insertions at the same place)
+        for n, spec in f.loops.items():
+            if n > len(loops):
+                raise Undecided(f"anchor lost: {f.key} has {len(loops)} loops, contract names loop {n}")
+        for n, lp in enumerate(loops, 1):
+            spec = f.loops.get(n)
+            if lp["kind"] == "for" and spec and spec["iter"]:
+                rw.insert(lp["in"] + 1, f"{spec['iter']}: ", "R5-for-iter-name")
+            if spec:
+                ch = []
+                for kind in ("invariant_except_break", "invariant", "ensures"):
+                    if spec[kind]:
+                        ch.append(Chunk(f"\n        {kind}\n", ("gen", "kw")))
+                        for i, c in enumerate(spec[kind], 1):
+                            ch.append(Chunk(f"            {c},\n", ("clause", f.key, f"loop#{n}/{kind}", i)))
+                if spec["decreases"]:
+                    ch.append(Chunk("        decreases\n", ("gen", "kw")))
+                    ch.append(Chunk(f"            {spec['decreases']},\n", ("clause", f.key, f"loop#{n}/decreases", 1)))
+                for c in ch:
+                    rw.insert(lp["body_open"], c.text, "contract", c.origin)
+            if canary:
+                rw.insert_after(lp["body_open"], " " + self.next_canary() + " ", "canary", ("canary", f.key, f"loop#{n}"))
         # contracts before the body
         ch = []
         if f.requires:
@@ -399,7 +481,8 @@ class Unit:
             base = f"{self.prop}/{self.name}/{f.key}"
             for i in range(1, len(f.ensures) + 1):
                 obs.append(f"{base}/ensures#{i}")
-            for n, sp in sorted(f.loops.items()):
+            assumed_body = f.opts.get("hoist") == "assumed-here"
+            for n, sp in sorted(f.loops.items() if not assumed_body else []):
                 for kind in ("invariant_except_break", "invariant", "ensures"):
                     for i in range(1, len(sp[kind]) + 1):
                         obs.append(f"{base}/loop#{n}/{kind}#{i}")
@@ -407,9 +490,9 @@ class Unit:
                     obs.append(f"{base}/loop#{n}/decreases#1")
             if f.decreases:
                 obs.append(f"{base}/decreases#1")
-            for n, sp in sorted(f.closures.items()):
+            for n, sp in sorted(f.closures.items() if not assumed_body else []):
                 obs.append(f"{base}/closure#{n}#1")
-            for i in range(1, len(f.hints) + 1):
+            for i in range(1, (len(f.hints) if not assumed_body else 0) + 1):
                 obs.append(f"{base}/hint#{i}")
             obs.append(f"{base}/safety")
         for b in self.blocks:
